@@ -3,7 +3,6 @@ package main
 import (
 	"go/token"
 	"go/types"
-	"strings"
 
 	"golang.org/x/tools/go/ssa"
 )
@@ -25,6 +24,13 @@ func reachableUnder(fn *ssa.Function, assign map[ssa.Value]bool) map[*ssa.BasicB
 		}
 		if c, ok := v.(*ssa.Const); ok && c.Value != nil && isBool(c.Type()) {
 			return c.Value.String() == "true", true
+		}
+		if bo, ok := v.(*ssa.BinOp); ok && (bo.Op == token.EQL || bo.Op == token.NEQ) && isBool(bo.X.Type()) {
+			x, okx := eval(bo.X)
+			y, oky := eval(bo.Y)
+			if okx && oky {
+				return (x == y) == (bo.Op == token.EQL), true
+			}
 		}
 		return false, false
 	}
@@ -157,9 +163,58 @@ func c18(c *Ctx) {
 		if ev := methodOf(p, inT, "Eval"); ev != nil {
 			// inner Eval invokes; the outer loop = the loop whose body dominates them
 			var inner []*ssa.Call
+			isEvalInvoke := func(i ssa.Instruction) bool {
+				cl, ok := i.(*ssa.Call)
+				return ok && cl.Call.IsInvoke() && cl.Call.Method.Name() == "Eval"
+			}
+			// innermost loop header around instruction at; nil if none
+			innerLoopOf := func(at ssa.Instruction) *ssa.BasicBlock {
+				var h *ssa.BasicBlock
+				for _, b := range at.Parent().Blocks {
+					for _, pr := range b.Preds {
+						if b.Dominates(pr) && b.Dominates(at.Block()) {
+							if h == nil || h.Dominates(b) {
+								h = b
+							}
+						}
+					}
+				}
+				return h
+			}
+			// conjunction over positions: no `true` is returned from inside the loop that evaluates the positions
+			conjOK, conjWhy := true, ""
+			checkConj := func(at *ssa.Call) {
+				h := innerLoopOf(at)
+				if h == nil || len(h.Succs) != 2 {
+					conjOK, conjWhy = false, "row positions are not evaluated in a loop"
+					return
+				}
+				for _, ret := range returnsOf(at.Parent()) {
+					in := h.Succs[0] == ret.Block() || h.Succs[0].Dominates(ret.Block())
+					if v0, isC := retResult(ret, 0).(*ssa.Const); in && isC && v0.Value != nil && v0.Value.String() == "true" && at.Parent() != ev {
+						conjOK, conjWhy = false, "a row is accepted before all of its positions matched (at "+p.Pos(posOf(ret))+")"
+					}
+				}
+			}
 			eachInstr(ev, func(i ssa.Instruction) {
-				if cl, ok := i.(*ssa.Call); ok && cl.Call.IsInvoke() && cl.Call.Method.Name() == "Eval" {
-					inner = append(inner, cl)
+				if isEvalInvoke(i) {
+					inner = append(inner, i.(*ssa.Call))
+					return
+				}
+				// a row helper: a function of this package that evaluates the positions of one row
+				if cl, ok := i.(*ssa.Call); ok {
+					if cal := staticCallee(cl.Common()); cal != nil && cal.Blocks != nil && relPkg(cal) == "arg" && cal.Signature.Results().Len() == 2 {
+						var sub *ssa.Call
+						eachInstr(cal, func(j ssa.Instruction) {
+							if isEvalInvoke(j) {
+								sub = j.(*ssa.Call)
+							}
+						})
+						if sub != nil {
+							inner = append(inner, cl)
+							checkConj(sub)
+						}
+					}
 				}
 			})
 			if len(inner) == 0 {
@@ -202,6 +257,9 @@ func c18(c *Ctx) {
 			}
 			r.Check(okShape, "C18.R3", "In evaluation is a disjunction over rows", p.Pos(ev.Pos()), "true as soon as one row matches, false only after all rows were tried",
 				"In does not accept the union of its rows: "+why)
+			if !conjOK {
+				r.Bad("C18.R3", "a row matches only if every position matches", p.Pos(ev.Pos()), "In accepts a row although not all of its positions matched: "+conjWhy)
+			}
 		}
 	}
 	// ---- R5 integers are never compared through floating point in the number/number arm
@@ -338,7 +396,7 @@ func c18(c *Ctx) {
 			var nilCalls []*ssa.Call
 			eachInstr(f, func(i ssa.Instruction) {
 				if c2, ok := i.(*ssa.Call); ok {
-					if cal := staticCallee(c2.Common()); cal != nil && relPkg(cal) == "arg" && strings.Contains(strings.ToLower(cal.Name()), "nil") && len(c2.Call.Args) == 1 {
+					if cal := staticCallee(c2.Common()); cal != nil && relPkg(cal) == "arg" && isNilPredicate(cal) && len(c2.Call.Args) == 1 {
 						nilCalls = append(nilCalls, c2)
 					}
 				}
